@@ -305,6 +305,20 @@ fn cases(tier: Tier) -> Vec<Case> {
             }
         }
     }
+    // two one-shots registered before a third timer that is still pending when the actor ends
+    for k1 in 2..4u8 {
+        for k2 in 2..4u8 {
+            for (k3, p3) in [(0u8, 3u32), (1, 3), (2, 6), (3, 6)] {
+                for &term in &[Term::Stop, Term::Drop, Term::Panic] {
+                    for &tt in &[3u32, 4] {
+                        for &mb in &[Mailbox::U, Mailbox::B(1)] {
+                            v.push(make_case(&[(timer_of(k1, 1, 1), false), (timer_of(k2, 2, 2), false), (timer_of(k3, 3, p3), false)], term, tt, mb, Work::default(), false, 0));
+                        }
+                    }
+                }
+            }
+        }
+    }
     if tier == Tier::Thorough {
         // three and four timers
         for k1 in 0..4u8 {
